@@ -43,6 +43,7 @@ pub fn shape_word(ixs: &[Ix]) -> String {
             "start_deleverage" => "D",
             "end_deleverage" => "F",
             "withdraw" => "w",
+            "kamino_withdraw" | "drift_withdraw" | "solend_withdraw" => "v",
             "repay" => "r",
             "deposit" => "d",
             "borrow" => "b",
@@ -105,7 +106,7 @@ pub fn in_language(kind: Kind, ixs: &[Ix]) -> Result<(usize, Pubkey), &'static s
         if ix.wrapper.is_some() {
             continue;
         }
-        if !matches!(ix.tag, "withdraw" | "repay" | "init_liq_record") {
+        if !matches!(ix.tag, "withdraw" | "repay" | "init_liq_record") && !super::is_venue_withdraw(ix.tag) {
             return Err("forbidden_ix_inside");
         }
     }
@@ -234,7 +235,7 @@ pub fn judge(
     }
     // withdrawals inside the bracket: never of zero-weight or non-positively priced collateral
     for (i, ix) in s.tx.ixs.iter().enumerate().skip(sp + 1) {
-        if ix.program_id != marginfi_id() || ix.tag != "withdraw" {
+        if ix.program_id != marginfi_id() || !super::is_withdraw(ix.tag) {
             continue;
         }
         if ix.accounts[1].pubkey != target {
